@@ -171,6 +171,9 @@ func (v *VC) Preamble() string {
 		if ax := v.mapValClockAxiom(n, k, "0"); ax != "" {
 			sb.WriteString(ax + "\n")
 		}
+		if _, ok := v.mapValTy[k]; ok {
+			sb.WriteString(v.heapTypeAxiom(n, k) + "\n")
+		}
 		if !strings.HasPrefix(srt, "RAW:") {
 			if isPtrLike(srt) {
 				fmt.Fprintf(&sb, "(assert (forall ((p Ptr)) (! (<= (root %s) 0) :pattern ((select %s p)))))\n", ptrOf(srt, fmt.Sprintf("(select %s p)", n)), n)
